@@ -106,6 +106,18 @@ type executor struct {
 // result in an orderly execution of the individual stages.
 //
 // 5. We can now construct the output data model of the workflow.
+// linkReferences connects the references within a scope to the objects of that scope and reports the ones that
+// cannot be connected.
+func linkReferences(scope schema.Scope) (err error) {
+	defer func() {
+		if r := recover(); r != nil {
+			err = fmt.Errorf("%v", r)
+		}
+	}()
+	scope.ApplySelf()
+	return scope.ValidateReferences()
+}
+
 func (e *executor) Prepare(workflow *Workflow, workflowContext map[string][]byte) (ExecutableWorkflow, error) {
 	dag := dgraph.New[*DAGItem]()
 	if _, err := dag.AddNode(WorkflowInputKey, &DAGItem{
@@ -174,6 +186,17 @@ func (e *executor) Prepare(workflow *Workflow, workflowContext map[string][]byte
 				return nil, fmt.Errorf("could not find output id %q in output schema", outputID)
 			}
 			outputSchema = outputSchemaData
+			// The root object and the referenced objects are looked up whenever data is checked against the schema;
+			// a schema that lacks one of them is unusable.
+			if scope := outputSchema.Schema(); scope != nil {
+				if _, ok := scope.Objects()[scope.Root()]; !ok {
+					return nil, fmt.Errorf(
+						"the output schema of the output %q does not contain its root object %q", outputID, scope.Root())
+				}
+				if err := linkReferences(scope); err != nil {
+					return nil, fmt.Errorf("the output schema of the output %q has an unresolved reference (%w)", outputID, err)
+				}
+			}
 		}
 		outputSchema, err = infer.OutputSchema(
 			outputData,
